@@ -2735,6 +2735,12 @@ namespace bloch::compiler {
                     throw BlochError(ErrorCategory::Semantic, node.line, node.column,
                                      "static methods should be accessed via the type, not super");
                 }
+                // super.m() runs the base version: there must be one
+                if (!method->hasBody) {
+                    throw BlochError(ErrorCategory::Semantic, node.line, node.column,
+                                     "method '" + member->member + "' has no body in '" +
+                                         method->owner + "' and cannot be called through super");
+                }
             }
             auto params = memberTypesFrom(searchType, method->owner, method->paramTypes);
             checkArgs(params, member->member, node.line, node.column);
